@@ -38,6 +38,9 @@ def members_of(zip_path):
     return {m: hashlib.sha256(z.read(m)).hexdigest()[:12] for m in z.namelist()}
 
 
+_FLIPPED = {}      # path -> offsets already flipped since the file was last written by a build (a second flip of the same byte would repair it)
+
+
 def damage(path, R, how=None):
     data = open(path, "rb").read()
     how = how or R.choice(["truncate", "truncate", "flip", "flip", "garbage"])
@@ -45,10 +48,18 @@ def damage(path, R, how=None):
         data = data[:R.randrange(0, max(1, len(data) - 1))]
     elif how == "garbage":
         data = b"not a zip at all"
-    else:       # flip a byte inside the data of a member (not the directory at the end)
-        z = zipfile.ZipFile(path); info = max(z.infolist(), key=lambda i: i.compress_size)
-        off = info.header_offset + 30 + len(info.filename.encode()) + len(info.extra) + info.compress_size // 2
-        data = data[:off] + bytes([data[off] ^ 0x5A]) + data[off + 1:]
+    else:       # flip a byte inside the data of a member (not the directory at the end); never the same byte twice
+        done = _FLIPPED.setdefault((path, len(data)), set())
+        try:
+            z = zipfile.ZipFile(path); info = max(z.infolist(), key=lambda i: i.compress_size)
+            lo = info.header_offset + 30 + len(info.filename.encode()) + len(info.extra); hi = lo + max(1, info.compress_size)
+        except zipfile.BadZipFile:      # already damaged by an earlier operation of the history
+            lo, hi = 0, max(1, len(data))
+        cand = [o for o in range(lo, min(hi, len(data))) if o not in done] or [o for o in range(len(data)) if o not in done]
+        if cand:
+            off = cand[len(cand) // 2] if not done else R.choice(cand)
+            done.add(off)
+            data = data[:off] + bytes([data[off] ^ 0x5A]) + data[off + 1:]
     open(path, "wb").write(data)
     return how
 
